@@ -10,7 +10,8 @@ PROP = dict(
     exhaustive=False,
     rule="one evaluation = one transcript record: the bytes of TrieBuilder::write for a generated entry set (compared byte for "
          "byte with the model's writer), or a batch of up to 8 lookups (lookup_all_phrases, lookup_first_n_phrases with n = 0/1/3, "
-         "lookup_first_phrase; both strategies) / entries() / about() of the real Trie on a file, recomputed by the model's reader. "
+         "lookup_first_phrase; both strategies) / entries() (the complete enumeration IN ORDER) / about() of the real Trie on a file, "
+         "recomputed by the model's reader. "
          "distinct = distinct record text. Besides random entry sets the stream holds fixed extreme shapes (fan-out 300, 60-syllable "
          "keys, data offsets beyond 16 bits, a leaf of exactly 65535 bytes). The harness oracle additionally evaluates the C11 "
          "statement itself with a reference map on every file (and on the model writer's bytes fed to the real Trie), rebuilds every "
@@ -45,7 +46,13 @@ MANIFEST = dict(
          "order and nothing for absent keys; fuzzy prefix lookups return exactly the same-length keys matching syllable-wise (C13's "
          "starts_with), each once; lookup_first_n_phrases(key, n) returns exactly the first n phrases of the full result for every n and "
          "both strategies (`first_n_prefix`: lookupFirstN = (lookupAll).take n — C09's 'first n = prefix of the full result' for the "
-         "Trie back end), lookup_first_phrase its head; entries() yields every (key, phrase) once; the bytes are a Document of "
+         "Trie back end), lookup_first_phrase its head; entries() yields every (key, phrase) once — and in WHICH order is a theorem "
+         "too (`entries_order`, `entries_order_first_inserted`: an EQUATION of lists, not a permutation): the explicit-stack walk "
+         "descends along first children (ascending syllable code, leaf record first), pushes the leaves it passes and pops them "
+         "deepest first, then ascends to the next sibling; so the keys come sorted lexicographically by syllable code with a prefix "
+         "before its extensions, cut into the maximal chains 'each key a prefix of the next', every chain reversed (Cli.trieOrder; "
+         "Proofs/TrieEntriesOrder.lean: tLoop_ord computes the walk, Proofs/TrieEntriesRuns.lean: pre_sorted, ord_eq_runs, "
+         "ord_eq_trieOrder), under each key the leaf in written order; the bytes are a Document of "
          "trie.asn1 whose index is the BFS layout (leaf first, children ascending, consecutive ranges). `reader_on_conforming_file`: "
          "every conforming file, whoever wrote it, is read as the map of its tree (independent writer). Proof by DER round trips, "
          "the BFS loop invariant (bfs_layout), refinement of the reader to a walk on the builder tree, and the explicit-stack DFS of "
@@ -59,7 +66,9 @@ MANIFEST = dict(
          "only on the per-key phrase vectors and not on the order in which keys were first inserted (`deterministic` is the literal "
          "'equal input, equal bytes'); this is checked by the oracle on regrouped inputs. Tie: trie.asn1 / trie.rs constants "
          "regenerated every run; byte-for-byte correspondence of writer and reader on generated entry sets and extreme shapes; "
-         "oracle = the statement on the real code with a reference map and an independent format parser.",
+         "oracle = the statement on the real code with a reference map and an independent format parser; the oracle compares the ORDER "
+         "of entries() exactly (key sequence = sorted keys with prefix chains reversed, computed independently; every leaf in documented "
+         "order), generator_stats entries_order_checked_files / entries_order_files_with_a_prefix_chain.",
     note="Findings repaired in the repository (four `fix:` commits): F13 (`as u16` truncation, write now errors), F40 (freq range of "
          "trie.asn1 said 16 bits) and F41 (the phrase comparator was not a total order: sort_by could panic on leaves mixing single "
          "characters and phrases); F11 (found by C09, commit c70c911): Trie::lookup_first_n_phrases returned whole leaves beyond n "
